@@ -42,7 +42,7 @@ def cases(tier, seed):
                   for mask in range(1 << len(edges))]
         for i in range(0, len(graphs), 128):
             yield {"kind": "small", "n": 4, "form": "bare4", "graphs": graphs[i:i + 128]}
-    for i in range(100 if tier == "quick" else 5000):
+    for i in range(160 if tier == "quick" else 5000):
         yield {"kind": "random", "seed": seed, "idx": i}
     for i in range(6 if tier == "quick" else 60):
         yield {"kind": "fnarg", "seed": seed, "idx": i}
@@ -279,7 +279,8 @@ def random_child(arg):
 
 def run_random(case, out, fail):
     rng = core.rng_for(case["seed"], ID, case["idx"])
-    prog = progs.gen_program(rng, "vp14_%d_%d" % (case["seed"], case["idx"]), p_explicit=0.1, p_hidden=0.3)
+    prog = progs.gen_program(rng, "vp14_%d_%d" % (case["seed"], case["idx"]), p_explicit=0.1, p_hidden=0.5,
+                             p_init=0.2 if case["idx"] % 2 else 0.4, p_ext=0.2)
     with env.Scratch() as sc:
         try:
             got = procs.in_child(random_child, {"prog": prog, "root": sc.path("p")})
@@ -401,5 +402,5 @@ def run_case(case):
 
 def conclude(agg):
     return core.first(core.need(agg, "graphs", 6000), core.need(agg, "functions_compared", 3000),
-                      core.need(agg, "calls_expected_undeclared", 10), core.need(agg, "calls_expected_ok", 100),
+                      core.need(agg, "calls_expected_undeclared", 8), core.need(agg, "calls_expected_ok", 100),
                       core.need(agg, "function_argument_scenarios", 4)), {"exhaustive": True}
